@@ -72,6 +72,38 @@ fn check_summary_ctx(ev: &mut Ev, name: &str, ctx: &gm::SumCtx) -> CaseResult {
                 )
                 .into());
             }
+            // ... and the parsed entry is renamed: the accessors follow the
+            // current PKGNAME, not the one the text carried (whose last '-'
+            // sits at another offset), on the entry itself and on a clone.
+            let mut s = s;
+            let mut renames: Vec<String> = gm::RENAMES.iter().map(|d| d.to_string()).collect();
+            renames.push(format!("{name}-9"));
+            renames.push(format!("x-{name}"));
+            if !base.is_empty() && !version.is_empty() {
+                renames.push(base.to_string());
+            }
+            renames.push(name.to_string());
+            for (k, nn) in renames.iter().enumerate() {
+                let (b2, v2) = om::split_last_dash(nn);
+                // the statement covers names with non-empty base and version only
+                if nn.contains('\n') || nn.contains('\r') || !nn.contains('-') || b2.is_empty() || v2.is_empty() {
+                    continue;
+                }
+                if k % 3 == 2 {
+                    s = s.clone();
+                }
+                c07::apply(&mut s, &SumOp::Set(osum::PKGNAME, Val::S(nn.clone())));
+                ev.evals(2);
+                ev.count("summary/ctx/renamed_after_parse");
+                if s.pkgbase() != Some(b2) || s.pkgversion() != Some(v2) {
+                    return Err(format!(
+                        "Summary parsed with PKGNAME {name:?} and renamed to {nn:?} (rename #{k}) gives pkgbase {:?} / pkgversion {:?}, the last '-' gives ({b2:?}, {v2:?})",
+                        s.pkgbase(),
+                        s.pkgversion()
+                    )
+                    .into());
+                }
+            }
         }
     }
     Ok(())
